@@ -312,9 +312,50 @@ class Evaluator:
         self.ctx.unknowns.append((what, s))
         return ('unk', st.fresh())
 
+    def ri_norm(self, loc):
+        """representation invariant, back-pointer round trip: the index / count / ttl entry a bound element's stored position denotes
+        maps back to that element, so `*(*e.m_keyed_position).second` (node lists) and `m_elements[(*e.m_keyed_position).second]`
+        (slot vectors) are other names of `e`.  Locations are brought to the shorter name before the store is consulted, so a write
+        through one name is seen through the other (reads of the stored position itself stay in the trace)."""
+        r = getattr(self, '_ri_roles', False)
+        if r is False:
+            try:
+                import model
+                r = model.ROLES.get(self.cm.name)
+            except Exception:
+                r = None
+            self._ri_roles = r
+        if not r or not isinstance(loc, tuple) or not loc:
+            return loc
+        if loc[0] == 'fld' and len(loc) == 3 and isinstance(loc[1], tuple):
+            base = self.ri_norm(loc[1])
+            return loc if base is loc[1] else ('fld', base, loc[2])
+        targets = ('index',) + tuple(r.get('aux') or ())
+
+        def owner(t):
+            if isinstance(t, tuple) and len(t) == 3 and t[0] == 'ld' and isinstance(t[2], tuple) and len(t[2]) == 3 and t[2][0] == 'fld' \
+                    and t[2][2] == 'second':
+                d = t[2][1]
+                if isinstance(d, tuple) and len(d) == 2 and d[0] == 'deref' and isinstance(d[1], tuple) and len(d[1]) == 3 \
+                        and d[1][0] == 'ld' and d[1][1] == t[1]:
+                    f = d[1][2]
+                    if isinstance(f, tuple) and len(f) == 3 and f[0] == 'fld' and r['backptrs'].get(f[2]) in targets:
+                        return f[1]
+            return None
+        if r['kind'] == 'nodelist' and loc[0] == 'deref' and len(loc) == 2:
+            e = owner(loc[1])
+            if isinstance(e, tuple) and e and e[0] == 'deref':
+                return self.ri_norm(e)
+        if r['kind'] == 'slotvec' and loc[0] == 'idx' and len(loc) == 3 and loc[1] == ('fld', ('this',), r['slots']):
+            e = owner(loc[2])
+            if isinstance(e, tuple) and e and e[0] == 'idx' and e[1] == loc[1]:
+                return self.ri_norm(e)
+        return loc
+
     def load(self, st, loc, n=None, quiet=False):
         if not isinstance(loc, tuple):
             return loc
+        loc = self.ri_norm(loc)
         k = loc[0]
         if k in ('int', 'bool', 'enum', 'ctor', 'now', 'rng', 'pred', 'res', 'adv', 'add', 'bin', 'cmp', 'not',
                  'unk', 'global', 'cast', 'hasval', 'optval', 'float', 'str', 'pair', 'undef', 'some', 'lv', 'ld', 'ma',
@@ -389,6 +430,7 @@ class Evaluator:
         return None
 
     def write(self, st, loc, val, n, how='='):
+        loc = self.ri_norm(loc)
         if isinstance(loc, tuple) and len(loc) == 3 and loc[0] == 'fld' and loc[2] == 'second' and isinstance(loc[1], tuple) \
                 and loc[1][0] == 'rcslot' and loc[1][1] in st.rangecopy:
             # out[i].second = r on the pre-filled output: the answer for R[i] is delivered paired with R[i] (= out.emplace_back(R[i], r))
@@ -659,6 +701,60 @@ class Evaluator:
                 return False                      # equal keys: neither is less than the other
             if (m, key_norm(x)) in st.absent:
                 return not swapped                # k absent: k < lower_bound(k)->first, and not the other way round
+        return None
+
+    def counter_lambda(self, node):
+        """`[n = K]() mutable { return n++; }` -> K (an integer literal), else None"""
+        lam = self.strip(node)
+        while lam.get('kind') in ('CXXConstructExpr', 'MaterializeTemporaryExpr', 'CXXBindTemporaryExpr', 'CXXFunctionalCastExpr') and lam.get('inner'):
+            lam = self.strip([c for c in lam['inner'] if isinstance(c, dict) and c.get('kind')][0])
+        if lam.get('kind') != 'LambdaExpr':
+            return None
+        rec = next((c for c in lam.get('inner', []) if c.get('kind') == 'CXXRecordDecl'), None)
+        op = next((c for c in (rec or {}).get('inner', []) if c.get('kind') == 'CXXMethodDecl' and c.get('name') == 'operator()'), None)
+        body = next((c for c in (op or {}).get('inner', []) if c.get('kind') == 'CompoundStmt'), None)
+        if body is None:
+            return None
+        stmts = [c for c in body.get('inner', []) if isinstance(c, dict) and c.get('kind')]
+        if len(stmts) != 1 or stmts[0].get('kind') != 'ReturnStmt':
+            return None
+        e = self.strip([c for c in stmts[0].get('inner', []) if isinstance(c, dict) and c.get('kind')][0])
+        if e.get('kind') == 'ImplicitCastExpr':
+            e = self.strip(e['inner'][0])
+        if not (e.get('kind') == 'UnaryOperator' and e.get('opcode') == '++' and e.get('isPostfix')):
+            return None
+        ref = self.strip(e['inner'][0])
+        if ref.get('kind') != 'DeclRefExpr':
+            return None
+        vid = ref['referencedDecl'].get('id')
+
+        def find_var(x):
+            if isinstance(x, dict):
+                if x.get('kind') == 'VarDecl' and x.get('id') == vid:
+                    return x
+                for c in x.get('inner', []) or []:
+                    r = find_var(c)
+                    if r is not None:
+                        return r
+            return None
+        vd = find_var(lam)
+        inits = [c for c in lam.get('inner', []) if isinstance(c, dict) and c.get('kind') and c['kind'] not in ('CXXRecordDecl', 'CompoundStmt')]
+        cand = []
+        if vd is not None:
+            cand += [c for c in vd.get('inner', []) if isinstance(c, dict) and c.get('kind') and not c['kind'].endswith('Comment')]
+        cand += inits
+        for c in cand:
+            x = c
+            while isinstance(x, dict):
+                if x.get('kind') == 'IntegerLiteral':
+                    try:
+                        return int(x.get('value'))
+                    except (TypeError, ValueError):
+                        return None
+                inner = [y for y in x.get('inner', []) or [] if isinstance(y, dict) and y.get('kind')]
+                if len(inner) != 1:
+                    break
+                x = inner[0]
         return None
 
     def bool_under_casts(self, x):
@@ -1085,7 +1181,7 @@ class Evaluator:
         if name == 'transform' and len(args) == 4:
             yield from self.algorithm(n, name, args, st)
             return
-        if name in MUTATING_ALGOS or name in READING_ALGOS:
+        if (name in MUTATING_ALGOS or name in READING_ALGOS) and not (name == 'generate' and len(args) == 3 and self.counter_lambda(args[2]) is not None):
             # an <algorithm> the engine has no exact summary for: conservatively, a mutating one changes every range it is given
             # (a structure write on a member container, a re-ordering of a caller's range), a reading one reads them
             for st2, ts in self.eval_args(args, st):
@@ -1182,6 +1278,15 @@ class Evaluator:
                 st2.ev('wr', ('range', ts[0], ts[1]), ('iota', ts[2]), site_of(n, st2), 'iota')
                 yield st2, ('void',)
             return
+        if name == 'generate' and len(args) == 3:
+            start = self.counter_lambda(args[2])
+            if start is not None:
+                # std::generate(b, e, [n = 0]() mutable { return n++; }) numbers the range like std::iota(b, e, 0)
+                for st2, ts in self.eval_args(args[:2], st):
+                    st2.ev('iota', ts[0], ts[1], ('int', start), site_of(n, st2))
+                    st2.ev('wr', ('range', ts[0], ts[1]), ('iota', ('int', start)), site_of(n, st2), 'iota')
+                    yield st2, ('void',)
+                return
         if name in ('insert_allowed', 'update_allowed'):
             for st2, ts in self.eval_args(args, st):
                 yield st2, ('pred', name, ts[0])
@@ -2328,6 +2433,25 @@ class Evaluator:
             elif k == 'CXXMemberCallExpr':
                 # mutating member call on a local object (output.emplace_back ...): treated via store, not env
                 pass
+            if k in ('CallExpr', 'CXXMemberCallExpr', 'CXXOperatorCallExpr'):
+                # a local handed to a callee as a bare lvalue binds to a non-const reference parameter (a by-value or const&
+                # parameter puts a conversion node in between): the callee may assign it (`tally(count, ok)`)
+                cname = (self.callee_name(x)[0] or '') if k != 'CXXMemberCallExpr' else ''
+                if cname not in ('move', 'forward', 'as_const', 'addressof', 'get', 'size', 'begin', 'end', 'cbegin', 'cend', 'data', 'empty',
+                                 'next', 'prev', 'distance', 'min', 'max') and not (k == 'CXXOperatorCallExpr' and cname in (
+                                     'operator==', 'operator!=', 'operator<', 'operator>', 'operator<=', 'operator>=', 'operator*', 'operator->',
+                                     'operator+', 'operator-', 'operator()', 'operator[]')):
+                    for a in (x.get('inner', []) or [])[1:]:
+                        y = a
+                        while isinstance(y, dict) and y.get('kind') == 'ParenExpr' and y.get('inner'):
+                            y = y['inner'][0]
+                        if isinstance(y, dict) and y.get('kind') == 'DeclRefExpr' and y.get('valueCategory') == 'lvalue' \
+                                and y.get('referencedDecl', {}).get('kind') == 'VarDecl' \
+                                and not (qt(y) or '').startswith('const ') \
+                                and (typeclass(qt(y)) in ITERATORS or re.match(
+                                    r'^(unsigned |signed )?(long long|long|int|short|char|bool|float|double|size_t|std::size_t|u?int\d+_t)\b',
+                                    (y.get('type', {}).get('desugaredQualType') or qt(y) or ''))):
+                            out.add(y['referencedDecl']['id'])
             for c in x.get('inner', []) or []:
                 w(c)
         w(n)
